@@ -26,6 +26,13 @@ TCP_AS = ["kernel TCP semantics (FIN vs RST, half-close, loopback ordering) and 
           "AEAD contract: open(seal(n,p)) = some p; a block sealed under one key opens under no other"]
 TCP_CAMP = dict(engine="tcp", n=n(25, 500), netns=True)
 
+CFG_CAMP = dict(engine="config", n=n(14, 300), netns=True)
+CFG_TB = ["model Model/Config.lean of cmd/outline-ss-server (loadConfig, runConfig, listenerSet, newCipherListFromConfig, Validate, Stop) over a handle-counting listener manager, hand-written; tied by the `config` campaign: the real main package behind the verif-tagged line driver (cmd/outline-ss-server/verif_driver_test.go) run as a child process in a private network namespace, real configuration files, binds that really fail, real TCP/UDP Shadowsocks clients (spec-level crypto), /proc/net for bound sockets, goroutine counts",
+          "Gen/Wiring.lean facts loadConfigStages, generationListenersInOneSet, failedStartClosesItsSet, reloadStartsNewBeforeStoppingOld, stopClosesListenersOnly, handlerContextGovernsOnlyTheDial, serviceListenersServeOwnKeys (extract/wiring.go, syntactic) regenerated on every run",
+          "YAML parsing (gopkg.in/yaml.v3) and net.SplitHostPort/ParseIP are outside the model: parse failures are one fault kind, address acceptability is a parameter fed from the generator's knowledge and checked by the campaign"]
+CFG_AS = ["the order in which legacy ports are started (Go map iteration) is arbitrary; the theorems hold for every plan order and the final state does not depend on it",
+          "cipher-name acceptance (`canon`) mirrors the SDK's table (case-insensitive aliases); checked by the campaign with accepted and rejected names"]
+
 CHECKS = {
     "C20": dict(
         level="proof",
@@ -35,6 +42,12 @@ CHECKS = {
         assumptions=["'cannot be parsed' is what Go's net.SplitHostPort/ParseIP reject (after dropping an IPv6 zone); the parser itself is outside the model",
                      "access-key ids, country/ASN data and the server's own listen address are not client addresses"],
     ),
+    "C09": dict(level="proof", campaigns=[CFG_CAMP], trusted_base=CFG_TB, assumptions=CFG_AS + [
+        "which id of a key group answers at run time (after last-used reordering) is C01; cryptographic key separation (a stream sealed under one (cipher, secret) opens under no other) is outside the model and exercised by the campaign's real clients"]),
+    "C10": dict(level="proof", campaigns=[CFG_CAMP], trusted_base=CFG_TB, assumptions=CFG_AS),
+    "C11": dict(level="proof", campaigns=[CFG_CAMP], trusted_base=CFG_TB, assumptions=CFG_AS + [
+        "the kernel's listen queue between the accept loops of two generations is observed, not modelled",
+        "a connection still dialling its target when the old generation stops is aborted by design (context cancellation); C11 does not cover it and the campaign counts it apart"]),
     "C17": dict(
         level="proof",
         campaigns=[dict(engine="metrics", n=n(250, 5000))],
